@@ -73,6 +73,39 @@ def body():
         key, s, evs = execs[i]
         c.violation(key, "execution is not a behaviour of the TLS contract (authentication / agreement): first unexplained event #%d %s" % (j, json.dumps(ev)[:200]),
                     {"scenario": s, "event_index": j, "events": evs[max(0, j - 12):j + 3]})
+    # the TLCP server against a peer that is not the library: protocol deviations only a hostile client can produce
+    import roguepeer, concurrent.futures as cf
+    exe = vlib.cc_driver("srvdrv", ["srvdrv.c", "vh.c"])
+    creds = tlslib.ensure_creds()
+    DEV = {  # deviation -> (certificate presented, chains to the anchors, possession proved)
+        "honest": (True, True, True), "empty_cert": (False, False, False), "empty_cert_with_cv": (False, False, True), "no_cert_msg": (False, False, False),
+        "cert_no_cv": (True, True, False), "cv_wrong_key": (True, True, False), "cv_stale_transcript": (True, True, False)}
+    jobs = [("tlcp_d2", "trust_root", d, "cli_d2") for d in DEV] + [("tlcp_d2", "trust_evil", "honest", "cli_d2"), ("tlcp_d2", "trust_root", "honest", "cli_untrusted"),
+                                                                       ("tlcp_d2", "-", "honest", "cli_d2"), ("tlcp_d3", "trust_root", "empty_cert", "cli_d2"), ("tlcp_d1", "trust_root", "cert_no_cv", "cli_d3")]
+    def one(j):
+        scred, strust, dev, ccred = j
+        return j, roguepeer.run(creds, exe, 257, scred, strust, dev, ccred=ccred)
+    rexecs = []
+    with cf.ThreadPoolExecutor(8) as ex:
+        for j, (view, evs, san) in ex.map(one, jobs):
+            scred, strust, dev, ccred = j
+            key = "c09:rogue:p257:scred=%s:strust=%s:ccred=%s:%s" % (scred, strust, ccred, dev)
+            c.count(1, key)
+            hr = [e for e in evs if e["e"] == "HsRet"]
+            if san or not hr or not any(e["e"] == "End" for e in evs):
+                c.violation(key + ":crash", "the library server crashed / tripped a sanitizer / never returned against a deviating peer: %s" % str(san)[:300], {"peer_view": view, "server_events": evs})
+                continue
+            cert, ok, poss = DEV[dev]
+            ok = ok and strust == "trust_root" and ccred != "cli_untrusted"
+            data = [e for e in evs if e["e"] == "Data"]
+            rexecs.append((key, [{"e": "Rogue", "dev": dev, "mutual": strust != "-", "cCert": cert, "cOK": ok, "cPoss": poss, "srvrc": hr[0]["rc"], "peerdone": bool(view.get("completed")),
+                                  "delivered": bool(data and data[0].get("rc") == 1 and data[0].get("got") == "70696e67")}], view))
+    rej2, st2 = vlib.validate("RogueTrace", [e[1] for e in rexecs], tag="c09r")
+    c.cov["traces_validated_against_impl"] += len(rexecs)
+    c.cov["rogue_peer_handshakes"] = len(rexecs)
+    for i, j, ev in rej2:
+        key, evs, view = rexecs[i]
+        c.violation(key, "the library server's verdict on a deviating peer is not the contract's: %s" % json.dumps(ev)[:300], {"event": ev, "peer_view": view})
     outcomes = {}
     for key, s, evs in execs:
         end = evs[-1]
@@ -84,7 +117,7 @@ def body():
         rule="one live handshake per (protocol, verifying role, credential defect) with credentials built by the reference X.509 writer; "
              "distinct = distinct (protocol, credential sets, trust sets); the facts (chain valid, key possessed) are bound in the Start event and the "
              "verifier's completion must be explained by Tls.tla's receive rules",
-        trusted=["TLC", "harness/tlsdrv.c", "tools/mkcreds.py (defect construction)"],
+        trusted=["TLC", "harness/tlsdrv.c", "tools/mkcreds.py (defect construction)", "tools/roguepeer.py (an independent TLCP client over the reference primitives; its honest run must be accepted)"],
         assumptions=["credential defects are those of DESIGN.md C09; each set has exactly the one named defect by construction"])
 
 
